@@ -9,6 +9,7 @@ import (
 	"fmt"
 	"strings"
 	"sync"
+	"sync/atomic"
 	"time"
 )
 
@@ -318,6 +319,20 @@ func runFaultSuite(rep *Report, tier string, seed int64, prop string) {
 			}
 		}
 	}
+	if prop == "C03" {
+		n := 150
+		if tier == "thorough" {
+			n = 3000
+		}
+		for i := 0; i < n; i++ {
+			rep.Evaluations++
+			if msg := c03Hammer(i); msg != "" {
+				rep.addViolation("property", "C03:hammer", msg, map[string]any{"suite": "C03-hammer", "note": "the response read fails once while 12 goroutines keep calling; the link context is NOT cancelled; every caller must return an error"})
+				break
+			}
+		}
+		rep.Extra["hammer_repetitions"] = n
+	}
 	if prop == "C16" {
 		n := 300
 		if tier == "thorough" {
@@ -378,6 +393,56 @@ func c16Hammer(i int) string {
 	p.B.Cancel()
 	p.CloseTransport()
 	wg.Wait()
+	p.wg.Wait()
+	return msg
+}
+
+// c03Hammer: the link ends through a transport read error (its context stays alive, the write side
+// keeps working) while many goroutines are in the middle of starting calls: every one of them must
+// return with an error; none may stay blocked.
+func c03Hammer(i int) string {
+	codec := jsonRaw()
+	plan := NewFaultPlan()
+	p, err := NewPair(codec, PairOpts{API: "message", Plan: plan})
+	if err != nil {
+		return ""
+	}
+	ra, _, _ := p.A.AnyRemote()
+	var wg sync.WaitGroup
+	var failed int64
+	for g := 0; g < 12; g++ {
+		wg.Add(1)
+		go func() {
+			defer wg.Done()
+			for {
+				if _, err := ra.Echo(context.Background(), 1, "h"); err != nil {
+					atomic.AddInt64(&failed, 1)
+					return
+				}
+			}
+		}()
+	}
+	time.Sleep(time.Duration(30+(i%9)*25) * time.Microsecond)
+	plan.FailNext("A.readRes")
+	msg := ""
+	select {
+	case <-p.A.LinkErr:
+	case <-time.After(watchdog):
+		msg = "Link did not return after a read error under load"
+	}
+	done := make(chan struct{})
+	go func() { wg.Wait(); close(done) }()
+	select {
+	case <-done:
+	case <-time.After(2 * time.Second):
+		if msg == "" {
+			msg = fmt.Sprintf("the link ended with a transport read error 2s ago (context not cancelled), but %d of 12 callers are still blocked in a call", 12-atomic.LoadInt64(&failed))
+		}
+	}
+	p.A.Cancel()
+	p.B.Cancel()
+	p.CloseTransport()
+	<-done
 	p.wg.Wait()
 	return msg
 }
